@@ -19,6 +19,7 @@ EXPLANATION = (
     'incremented only after linking and a rejected node is deleted.  Traversal completeness, comparator order of iteration and '
     'linearizability are NOT decided.')
 EXPLANATION += ' Added after the seeded-change rounds: ' + 'D4: after internal_insert / internal_insert_node the rejected node is disposed of at most once on every path.'
+EXPLANATION += ' Added in the third session (round-3 seeds and the findings they led to): ' + 'D5: every value written to the bucket count is a power of two by construction (one-bit abstract domain; doublings only where the doubled value is bounded from above).'
 ASSUMPTIONS = ['instantiations: unordered/ordered map, multimap, set, multiset over int (explicit instantiation)']
 ND = ['traversal completeness under concurrent inserts', 'comparator order of iteration', 'linearizability']
 UB = None
